@@ -45,13 +45,15 @@ def extra(ctx):
                 "Definition OR := Eval vm_compute in idx (route_ok reg_empty reg_method) routes.\nPrint OR.\n"
                 "Definition OB := Eval vm_compute in idx binding_ok bindings.\nPrint OB.\n"
                 "Definition OM := Eval vm_compute in idx mux_ok muxes.\nPrint OM.\n"
-                "Definition OS := Eval vm_compute in idx server_ok servers.\nPrint OS.\n")
+                "Definition OS := Eval vm_compute in idx server_ok servers.\nPrint OS.\n"
+                "From AGH Require Import Proofs.AuthCreds.\n"
+                "Definition ON := Eval vm_compute in idx (fun rt => exception rt || blind_before_auth (chain_of reg_method rt)) routes.\nPrint ON.\n")
     rc, out = ctx.run(["coqc", "-Q", ctx.COQ, "AGH", "-w", "none", src], cwd=ctx.workdir, timeout=600)
     if rc != 0:
         ctx.fail("proof", "the route table could not be evaluated: " + " ".join(out.split())[:300], detail=out[-2000:])
         return
     found = []
-    lists = {"OR": routes, "OB": tab["bindings"], "OM": tab["muxes"], "OS": tab["servers"]}
+    lists = {"OR": routes, "OB": tab["bindings"], "OM": tab["muxes"], "OS": tab["servers"], "ON": routes}
     for name, items in lists.items():
         ix = _indices(out, name)
         if ix is None:
@@ -65,6 +67,12 @@ def extra(ctx):
                                       % (it.get("method") or "*", it["pattern"], it["pos"], it["kind"],
                                          ": " + it["why"] if it.get("why") else "", it.get("mux"), chain),
                               "detail": it, "key": "route:" + it["pattern"]})
+            elif name == "ON":
+                chain = " ".join(w["kind"] for w in (it.get("chain") or [])) or "-"
+                found.append({"what": "route %s %s registered at %s (chain: %s): a wrapper that reads the method or a header stands in front of optionalAuth, "
+                                      "so the refusal of an unauthenticated request may depend on them (C11_routes_refusal_uniform fails)"
+                                      % (it.get("method") or "*", it["pattern"], it["pos"], chain),
+                              "detail": it, "key": "route-not-blind:" + it["pattern"]})
             elif name == "OB":
                 found.append({"what": "a RegisterFunc value is bound to %s at %s, which is not home.httpRegister" % (it["text"], it["pos"]),
                               "detail": it, "key": "binding:" + it["pos"]})
